@@ -32,7 +32,7 @@ PID = 'C19'
 CASE_TIMEOUT = 150
 RULE = ('cases = one fit output file each (kind fitter/direct, 1..4 records, stored predicted fluxes all/none/mixed, '
         'a share written by sedfitter.fit() itself from a data file, record sizes varied by keep() including records with zero kept fits at the first / a middle / the last position and '
-        'consecutively); every case cuts its file at every offset (thorough); quick: every offset '
+        'consecutively); every case cuts its file at every offset (thorough, files up to 40 kB; larger files: ten times the quick sample); quick: every offset '
         'inside the records of a file with a small record part + header frame boundaries + ~150 sampled header offsets, or ~400 '
         'sampled (3/4 inside records) + all frame boundaries +-2 of a larger file; a case is non-trivial when its offsets '
         'include a cut inside a record; distinct = distinct canonical hash of the generated file description')
@@ -47,7 +47,8 @@ REQUIRED_BRANCHES = ['open_error', 'iter_error', 'end_at_record_boundary', 'end_
                      'zero_fit_first', 'zero_fit_middle', 'zero_fit_last', 'zero_fit_consecutive', 'complete_file']
 ASSUMPTIONS = ['CPython\'s unpickler is a deterministic function of the bytes it consumes (values are not modelled, only framing)',
                'the pickles are protocol 2 as written by FitInfoFile.write (opcode table of protocols 0-2)']
-EXHAUSTIVE = {'quick': False, 'thorough': True}
+THOROUGH_EVERY = 40000      # thorough: every offset of files up to this many bytes
+EXHAUSTIVE = {'quick': False, 'thorough': False}   # thorough is exhaustive in the offsets of every file up to THOROUGH_EVERY bytes
 TRUSTED_EXTRA = ['os.truncate on a copy of the written file reproduces a crash at that byte']
 N = {'quick': 48, 'thorough': 120}
 SMALL_REC = 3000      # quick: files whose record part is at most this long are cut at every offset inside the records
@@ -688,8 +689,11 @@ def choose_offsets(case, n, hlen, marks, layout_known, head_marks=(), op_marks=(
     records are where files differ).  quick, larger file: the marks (frame boundaries) +-2, the ends of the file, a
     quarter of the random part in the header and the rest inside the records.
     returns (offsets, every offset of the file, every offset inside the records)"""
-    if case.get('tier') == 'thorough':
+    thorough = case.get('tier') == 'thorough'
+    if thorough and n <= THOROUGH_EVERY:
         return list(range(n + 1)), True, True
+    # (thorough, larger file - the records of 1200- and 70000-model grids run to megabytes: the sampling rules of the
+    # quick tier with ten times the sample; every offset of such a file would take hours)
     rng = case_rng(case['oseed'], PID, 'offsets')
     pts = {0, 1, 2, n - 1, n}
     for b in list(marks) + list(head_marks):
@@ -708,7 +712,7 @@ def choose_offsets(case, n, hlen, marks, layout_known, head_marks=(), op_marks=(
     for b in (ops if len(ops) <= NOPS else rng.sample(ops, NOPS)):
         pts.add(b)
     # an unexpected file layout (not header + one pickle per record) gets a three times denser sample
-    want = (NSAMPLE if layout_known else 3 * NSAMPLE) + len(pts)
+    want = (NSAMPLE if layout_known else 3 * NSAMPLE) * (10 if thorough else 1) + len(pts)
     want = min(want, n)
     while len(pts) < want:
         if rng.random() < 0.25 or hlen >= n:
